@@ -195,7 +195,7 @@ ProcSp(o, sp, pt, minbsp) ==
     IN IF o.type = "LIMIT"
        THEN IF o.side = "BACK" THEN fill(o, Rem(o))
             ELSE IF (o.price - 100) * Rem(o) >= minbsp * 100
-                 THEN LET size == RoundDiv(SpSizeNum(o), sp - 100)
+                 THEN LET size == SpSizeNum(o) \div (sp - 100)     \* rounded down: never more liability than the order had
                       IN fill([o EXCEPT !.can = @ + (Rem(o) - size)], size)
                  ELSE done([o EXCEPT !.lap = @ + Rem(o)])
        ELSE IF o.type = "LIMIT_ON_CLOSE"
@@ -204,7 +204,7 @@ ProcSp(o, sp, pt, minbsp) ==
             ELSE (IF sp > o.price THEN done(o) ELSE fill(o, RoundDiv(o.size * 100, sp - 100)))
        ELSE IF o.side = "BACK" THEN fill(o, o.size)
             ELSE fill(o, RoundDiv(o.size * 100, sp - 100))
-SpTie(o, sp) == sp > 100 /\ o.side = "LAY" /\ IsTie(SpSizeNum(o), sp - 100)
+SpTie(o, sp) == sp > 100 /\ o.side = "LAY" /\ o.type # "LIMIT" /\ IsTie(SpSizeNum(o), sp - 100)
 
 \* SimulatedOrder.__call__ for one order; returns <<order', traded', completes?>>
 Passive(o, mb, rb, traded, pt, minbsp) ==
